@@ -199,7 +199,7 @@ def run_scenario(ctx: FileCtx, acc: list, tracer: L.Tracer, src: str, full: bool
     return rec
 
 
-def sequences(edges: list, tier: str, rng: random.Random, heavy: bool) -> list:
+def sequences(edges: list, tier: str, rng: random.Random, heavy: bool, every_state: bool = True) -> list:
     """Access sequences selected from TLC's transition graph of the user phase: every single access,
     every ordered pair TLC generated, the shortest path to every distinct cache state (all of them in
     the thorough tier, a seeded sample otherwise), and seeded walks through the graph."""
@@ -227,7 +227,10 @@ def sequences(edges: list, tier: str, rng: random.Random, heavy: bool) -> list:
                 paths[t] = paths[s] + [v]
                 todo.append(t)
     deep = [p for p in paths.values() if len(p) > 2]
-    n_deep = len(deep) if (tier == 'thorough' and not heavy) else ((40 if tier == 'thorough' else 4) if heavy else 40)
+    if tier == 'thorough' and not heavy:
+        n_deep = len(deep) if every_state else 1200
+    else:
+        n_deep = (40 if tier == 'thorough' else 4) if heavy else 40
     deep = deep if n_deep >= len(deep) else rng.sample(deep, n_deep)
     seqs += [(p, 'state') for p in deep]
     # walks: random orders, with repeated requests of views already cached
@@ -258,7 +261,9 @@ def run(work: str, job: int, edge_file: str, out_path: str) -> None:
     tracer = L.Tracer().install()
     out = hlib.RecWriter(out_path)
     rng = random.Random(f'{hlib.seed()}/{spec["id"]}')
-    seqs, n_states = sequences(edges, tier, rng, spec['heavy'])
+    # every distinct cache state on one file per code path (standard structs, L4D2 header, Chaos structs,
+    # VitaminSource); a seeded sample of 1200 states on the other layouts and variants
+    seqs, n_states = sequences(edges, tier, rng, spec['heavy'], spec['id'] in ('v20', 'l4d2', 'chaos', 'vitamin'))
     ctx = FileCtx(spec, work)
     import time
     t0 = time.time()
